@@ -446,7 +446,7 @@ class Session:
                                 seconds=round(time.time() - t0, 3), solver_s=round(dt, 3),
                                 model=model_summary(model), _model=model, replay=replay,
                                 holes=[str(c) for c in combo] or None,
-                                abstraction_incomplete=bool(ctx.reductions))
+                                abstraction_incomplete=any(term_contains(goal, r.sym) or any(term_contains(h, r.sym) for h in hyps) for r in ctx.reductions))
         return self._record(oid, "undecided", function=function, what=what, reason=undecided,
                             seconds=round(time.time() - t0, 3))
 
